@@ -116,7 +116,7 @@ PROPS = {
         variants=V_DEFAULT, areas=["json.parse", "json.skipSpaces", "json.Valid", "json.internalParseFlags", "json.decoder_parse",
                                    "json.encoder_encodeRawMessage", "json.encoder_encodeJSONMarshaler", "json.decoder_decodeArray",
                                    "json.decoder_decodeRawMessage", "json.hasNullPrefix", "json.hasTruePrefix", "json.hasFalsePrefix"],
-        allowed_native=["Enc.Lemmas.Json"],
+        allowed_native=["Enc.Lemmas.Json", "Lemmas.JsonScan", "Enc.Lemmas.JsonScan"],
         main_theorem="Enc.Props.C05 (Valid = RFC 8259 recogniser)",
         rule="EXHAUSTIVE over a 26-symbol alphabet of JSON-significant byte classes: all strings of length <= 3 (quick) / 4 (thorough) "
              "plus random longer ones, each pushed through Valid and every syntax-only consumer (RawMessage encode, MarshalJSON "
@@ -125,5 +125,19 @@ PROPS = {
              "(8/16-byte quote windows); nesting 9999/10000/10001; a sample through the Lean driver (impl = model = RFC grammar)",
         trusted_base=["encoding/json of the installed toolchain is the oracle for the composite consumers (called in-process)"],
         assumptions=[],
+    ),
+    "C11": dict(
+        lean_modules=["Enc.Props.C11"],
+        variants=V_DEFAULT, areas=["json.Decoder", "json.Parse", "json.skipSpaces", "json.decoder_parse"],
+        allowed_native=["Enc.Lemmas.Json"],
+        main_theorem="Enc.Props.C11 (chunking independence of readValue)",
+        rule="value sequences with members placed to straddle / end exactly at offsets 4096, 32768, 36864, 65536 x chunkings "
+             "{single read, 1-byte reads, primes, exactly-to-the-edge with zero-length reads, random} x {clean EOF, data delivered "
+             "with EOF, terminal non-EOF error at a chunk boundary, data delivered with that error}; short streams cut at every "
+             "offset; observables: raw values, end class (EOF / error / reader's error), InputOffset bounds and monotonicity, "
+             "Buffered()+unread = unconsumed; oracle: encoding/json.Decoder on one clean read; model: Enc.Model.Json.Stream; "
+             "Parse remainder vs encoding/json InputOffset",
+        trusted_base=["encoding/json.Decoder on a single clean read is the oracle (in-process)"],
+        assumptions=["the scripted reader repeats its terminal condition once the script is over (as io.Reader implementations do)"],
     ),
 }
